@@ -180,7 +180,7 @@ func (ws *WALStorage) Append(entries []myraft.Entry) error {
 	ws.mu.Lock()
 	defer ws.mu.Unlock()
 
-	infos, err := ws.wal.AppendRecords(wal.Record{
+	infos, err := ws.appendDurable(wal.Record{
 		Type:    wal.RecordTypeRaftEntry,
 		Payload: payload,
 	})
@@ -217,7 +217,7 @@ func (ws *WALStorage) ApplySnapshot(snap myraft.Snapshot) error {
 	ws.mu.Lock()
 	defer ws.mu.Unlock()
 
-	infos, err := ws.wal.AppendRecords(wal.Record{
+	infos, err := ws.appendDurable(wal.Record{
 		Type:    wal.RecordTypeRaftSnapshot,
 		Payload: payload,
 	})
@@ -288,7 +288,7 @@ func (ws *WALStorage) SetHardState(st myraft.HardState) error {
 	ws.mu.Lock()
 	defer ws.mu.Unlock()
 
-	infos, err := ws.wal.AppendRecords(wal.Record{
+	infos, err := ws.appendDurable(wal.Record{
 		Type:    wal.RecordTypeRaftState,
 		Payload: payload,
 	})
@@ -353,6 +353,21 @@ func (ws *WALStorage) Snapshot() (myraft.Snapshot, error) {
 }
 
 // Internal helpers ----------------------------------------------------------
+
+// appendDurable appends one raft record and forces it out of the WAL's userland
+// buffer (and to stable storage) before the caller publishes anything that
+// depends on it: the manifest pointer that references the record's offset, the
+// in-memory log, and the messages the peer sends once the Ready is persisted.
+func (ws *WALStorage) appendDurable(rec wal.Record) ([]wal.EntryInfo, error) {
+	infos, err := ws.wal.AppendRecords(rec)
+	if err != nil {
+		return nil, err
+	}
+	if err := ws.wal.Sync(); err != nil {
+		return nil, err
+	}
+	return infos, nil
+}
 
 func (ws *WALStorage) updatePointer(ptr manifest.RaftLogPointer) error {
 	if ptr.Segment == 0 {
@@ -640,7 +655,7 @@ func decodeRaftEntries(data []byte) (uint64, []myraft.Entry, error) {
 		if err != nil {
 			return 0, nil, err
 		}
-		if idx+int(size) > len(data) {
+		if size > uint64(len(data)-idx) {
 			return 0, nil, io.ErrUnexpectedEOF
 		}
 		var entry myraft.Entry
@@ -678,7 +693,7 @@ func decodeRaftHardState(data []byte) (uint64, myraft.HardState, error) {
 	if err != nil {
 		return 0, st, err
 	}
-	if idx+int(size) > len(data) {
+	if size > uint64(len(data)-idx) {
 		return 0, st, io.ErrUnexpectedEOF
 	}
 	if err := st.Unmarshal(data[idx : idx+int(size)]); err != nil {
@@ -713,7 +728,7 @@ func decodeRaftSnapshot(data []byte) (uint64, myraft.Snapshot, error) {
 	if err != nil {
 		return 0, snap, err
 	}
-	if idx+int(size) > len(data) {
+	if size > uint64(len(data)-idx) {
 		return 0, snap, io.ErrUnexpectedEOF
 	}
 	if err := (*raftpb.Snapshot)(&snap).Unmarshal(data[idx : idx+int(size)]); err != nil {
